@@ -85,6 +85,21 @@ func jksLengthsPlausible(data []byte) bool {
 	return true
 }
 
+// readKeystore hands the data to jks-go after the plausibility walk. The library's Java deserializer (used for
+// secret-key entries) panics on some malformed streams — a negative block or string length, a null class
+// descriptor — and that must end as an error, not as a crash of the program.
+func readKeystore(data []byte) (k *keystore.Keystore, err error) {
+	if !jksLengthsPlausible(data) {
+		return nil, fmt.Errorf("failed to parse keystore data")
+	}
+	defer func() {
+		if p := recover(); p != nil {
+			k, err = nil, fmt.Errorf("failed to parse keystore data: %v", p)
+		}
+	}()
+	return keystore.InsecureParse(data)
+}
+
 func parseJKSEntry(e keystore.Entry) Info {
 	info := Info{
 		Description: fmt.Sprintf("%s (%s)", e.Alias, e.Type),
